@@ -357,6 +357,22 @@ pub fn run(seed: u64, cases: u64) -> std::process::ExitCode {
             cmp("self-referential", case, "de", format!("{a:?}"), format!("{c:?}"), &mut out, &mut n);
         }
     }
+    // a long self-referential chain: a wrapped value is read from any document depth the bare value is read from
+    for depth in [40usize, 70, 100, 150] {
+        let mut w = Node { name: "leaf".into(), child: vec![] };
+        let mut b = NodeBare { name: "leaf".into(), child: vec![] };
+        for i in 0..depth {
+            w = Node { name: format!("n{i}"), child: vec![MultiRef::new(w)] };
+            b = NodeBare { name: format!("n{i}"), child: vec![b] };
+        }
+        let sb = yaserde::ser::to_string(&b);
+        cmp("deep-chain", depth as u64, "ser", format!("{sb:?}"), format!("{:?}", yaserde::ser::to_string(&w)), &mut out, &mut n);
+        if let Ok(xml) = sb {
+            let a = yaserde::de::from_str::<NodeBare>(&xml).map(|x| format!("{x:?}").replace("NodeBare", "Node"));
+            let c = yaserde::de::from_str::<Node>(&xml).map(|x| format!("{x:?}"));
+            cmp("deep-chain", depth as u64, "de", format!("{a:?}"), format!("{c:?}"), &mut out, &mut n);
+        }
+    }
     // histories: the same shared value (and a clone of it) checked several times with changing restriction sets;
     // every answer must be the bare value's answer for that set, whatever was asked before
     for case in 0..cases {
